@@ -11,6 +11,7 @@ mod util;
 mod vd;
 mod engine;
 mod view;
+mod hydrate;
 
 /// DOM utilities for the verification engines.
 pub mod domutil {
@@ -409,6 +410,7 @@ fn main() {
         match arg.as_str() {
             "dom" => engine::run(&args),
             "view" => view::run(&args),
+            "hydrate" => hydrate::run(&args),
             _ => { eprintln!("engine not built yet"); std::process::exit(2) }
         }
         return;
